@@ -468,6 +468,22 @@ def extract(src):
             if t not in fthrows:
                 fthrows.append(t)
     fx["framingFnThrows"] = fthrows
+    # ---- advanceChunked: WHERE an announced chunk-size is rejected. The byte-level model (C15's sizeLine, linked by Lemmas/HttpRetryFraming)
+    # answers Malformed in the iteration that parses the size line when the number does not parse OR exceeds the cap; a cap test that only
+    # runs once the chunk data is complete turns a deterministic framing error into a wait for data that never comes (time-out / close: retried)
+    ac = cxxscan.function_body(src, "advanceChunked")
+    cm_ = re.search(r"std::uint64_t\s+chunkSize\s*=\s*0\s*;\s*if\s*\(", ac)
+    if not cm_:
+        raise TranslateError("advanceChunked: `std::uint64_t chunkSize = 0; if (...)` (the rejection right after the size is parsed) not found")
+    ce_ = _match_paren(ac, cm_.end() - 1)
+    cb0_ = _skip_ws(ac, ce_ + 1)
+    if ac[cb0_] != "{" or norm(ac[cb0_:cxxscan.match_brace(ac, cb0_) + 1]) != "{returnFrameStatus::Malformed;}":
+        raise TranslateError("advanceChunked: the branch after the chunk-size parse is not `{ return FrameStatus::Malformed; }`")
+    fx["chunkSizeReject"] = [norm(d) for d in split_top(ac[cm_.end():ce_], "||")]
+    wait_ = norm(ac).find("buf.size()-dataStart<chunkSize")
+    if wait_ < 0:
+        raise TranslateError("advanceChunked: the wait for the chunk data (`buf.size() - dataStart < chunkSize` -> NeedMore) not found")
+    fx["chunkRejectBeforeDataWait"] = norm(ac).find("std::uint64_tchunkSize=0;if(") < wait_
     # ---- bookkeeping helpers
     db = cxxscan.function_body(src, "dropConnection")
     if not re.search(r"it\s*!=\s*_connections\.end\(\)\s*&&\s*it->second\.id\s*==\s*sessionId", db) or \
@@ -964,6 +980,9 @@ def render(fx):
     t += "def recvBranches : List (String × String × String) := %s\n" % lean_triples(fx["recvBranches"])
     t += "/-- every exception type thrown by frameResponse/parseHeaderBlock/determineFraming/parseContentLength/advanceChunked -/\n"
     t += "def framingFnThrows : List String := %s\n" % lean_strs(fx["framingFnThrows"])
+    t += "/-- advanceChunked: disjuncts of the `return Malformed` test that follows the chunk-size parse; does it precede the wait for the chunk data -/\n"
+    t += "def chunkSizeReject : List String := %s\n" % lean_strs(fx["chunkSizeReject"])
+    t += "def chunkRejectBeforeDataWait : Bool := %s\n" % lean_bool(fx["chunkRejectBeforeDataWait"])
     t += "/-- conjuncts of `reusable` -/\n"
     t += "def reusableAtoms : List String := %s\n" % lean_strs(fx["reusableAtoms"])
     t += "/-- Config() defaults -/\n"
